@@ -195,6 +195,26 @@ class C06Models:
             return SV(t, TNpReal)
         if name == "float" and len(args) == 1 and _is_np(args[0]):
             return SV(args[0].term, TReal)
+        if name == "max" and len(args) == 1 and set(kwargs) <= {"default"} and isinstance(args[0], Ref) and isinstance(st.heap[args[0].id], ListObj):
+            # max(list of reals[, default=d]): the largest element (ValueError on an empty list without default)
+            from .engine import PyRaise
+
+            o = st.heap[args[0].id]
+            if o.is_empty_literal or o.t.sort() != R:
+                if o.is_empty_literal and "default" in kwargs:
+                    return kwargs["default"]
+                if o.is_empty_literal:
+                    raise PyRaise("ValueError", lineno)
+                return NotImplemented
+            if not st.decide(o.n >= 1):
+                if "default" in kwargs:
+                    return kwargs["default"]
+                raise PyRaise("ValueError", lineno)
+            r, w = st.fresh_const("listmax", R), st.fresh_int("argmax")
+            i = z3.Int("i!mx")
+            st.assume(z3.And(0 <= w, w < o.n, r == o.elems[w]))
+            st.assume(z3.ForAll([i], z3.Implies(z3.And(0 <= i, i < o.n), o.elems[i] <= r)))
+            return SV(r, TNpReal if o.t is TNpReal else TReal)
         if name == "numpy.array" and len(args) == 1 and not kwargs and isinstance(args[0], Ref) and isinstance(st.heap[args[0].id], ListObj):
             o = st.heap[args[0].id]
             if not o.is_empty_literal and o.t in (TReal, TNpReal) and z3.is_int_value(z3.simplify(o.n)) and z3.simplify(o.n).as_long() == 1:
@@ -283,6 +303,9 @@ class C06Models:
 
     def call_method(self, ex, recv, name, args, kwargs, lineno):
         st = ex.st
+        if name == "append" and len(args) == 1 and _is_np(args[0]) and isinstance(recv, Ref) and isinstance(st.heap[recv.id], ListObj) and st.heap[recv.id].t == TReal:
+            args[0] = SV(args[0].term, TReal)  # a numpy scalar appended to a list of floats: the same real (then the base model of list.append)
+            return NotImplemented
         if name == "c06conv.convert_data_to_array" and len(args) == 2 and not kwargs:
             names, data = args
             no = st.heap[names.id] if isinstance(names, Ref) else None
